@@ -142,7 +142,9 @@ def _hyp_settings(n, shrink=False):
                     print_blob=False)
 
 
-def _safe_run(part, case, rec):
+def _safe_run(part, case, rec, beat=None):
+    if beat is not None:
+        beat[0] = time.time()
     try:
         part.run(case, rec)
     except Exception as e:  # an exception in sv/ itself is a harness error, never a violation
@@ -164,13 +166,26 @@ def run_shard(mod_name, prop, tier, seed, part_index, shard, nshards):
     part = mod.parts(ctx)[part_index]
     rec = Recorder()
     err = None
+    beat = [time.time()]
+
+    import threading
+    stop = threading.Event()
+
+    def watchdog():
+        # a single case that never returns must not hang the check: give up on the shard
+        while not stop.wait(5):
+            if time.time() - beat[0] > float(os.environ.get('SV_CASE_TIMEOUT', '420')):
+                sys.stderr.write('HARNESS-ERROR: a case of part %s shard %d did not finish\n' % (part.name, shard))
+                sys.stderr.flush()
+                os._exit(3)
+    threading.Thread(target=watchdog, daemon=True).start()
     try:
         if part.enumerate is not None:
             for case in part.enumerate(shard, nshards):
                 if part.budget_s and time.time() - t0 > part.budget_s:
                     rec.skipped += 1
                     continue
-                _safe_run(part, case, rec)
+                _safe_run(part, case, rec, beat)
         else:
             import hypothesis
             n = (part.n + nshards - 1) // nshards
@@ -182,13 +197,14 @@ def run_shard(mod_name, prop, tier, seed, part_index, shard, nshards):
                 if part.budget_s and time.time() - t0 > part.budget_s:
                     rec.skipped += 1
                     return
-                _safe_run(part, case, rec)
+                _safe_run(part, case, rec, beat)
             explore()
     except HarnessError as e:
         err = str(e)
     except Exception as e:
         err = 'harness/hypothesis error in part %s shard %d: %r\n%s' % (
             part.name, shard, e, traceback.format_exc())
+    stop.set()
     res = rec.result()
     res.update(part=part.name, part_index=part_index, shard=shard, nshards=nshards, error=err,
                wall=time.time() - t0)
@@ -318,12 +334,16 @@ def main_check(prop, mod_name, tier, seed, replay=None):
             tasks.append((mod_name, prop, tier, seed, pi, s, ns))
     mpctx = multiprocessing.get_context('fork')
     results = []
+    broken = []
     with ProcessPoolExecutor(max_workers=NPROC, mp_context=mpctx) as ex:
         futs = [ex.submit(run_shard, *t) for t in tasks]
-        for f in futs:
-            results.append(f.result())
+        for f, t in zip(futs, tasks):
+            try:
+                results.append(f.result())
+            except Exception as e:
+                broken.append('shard %r of part %d lost: %r' % (t[5], t[4], e))
 
-    errors = [r['error'] for r in results if r['error']]
+    errors = [r['error'] for r in results if r['error']] + broken
     per_part = collections.OrderedDict()
     keys = set()
     classes = collections.Counter()
